@@ -60,6 +60,8 @@ def coq_verdicts(ck, tag, cases, module="Corr.SyncCorr", ctype="scase", fn="chec
 
 def shrink(ck, script, pred, budget=120):
     """greedy removal of actions while pred(script) stays true"""
+    if "actions" not in script:
+        return script
     acts = list(script["actions"])
     used = 0
     changed = True
@@ -79,6 +81,12 @@ def shrink(ck, script, pred, budget=120):
 
 def model_view(ck, case, k, module="Corr.SyncCorr"):
     from gallina import g
+    if isinstance(case["coq"], list):
+        # a group of cases: k = 1000000 * (1 + index) + verdict of that case
+        idx, k = k // 1000000 - 1, k % 1000000
+        if idx < 0:
+            return None
+        case = {"coq": case["coq"][idx]}
     return corr.eval_term(ck.prop + "-mv", module, "model_view %s %d%%nat" % (g(case["coq"]), max(k - 1, 0)))
 
 
